@@ -15,6 +15,9 @@ try:
     res['applies'] = ap_.returncode == 0
     for p in props if res['applies'] else []:
         t0 = time.time()
+        # evidence_backup: the evidence file describes the unchanged tree; it is read below and then put back
+        evf = os.path.join(a.verif, 'evidence', p + '.json')
+        keep = open(evf).read() if os.path.exists(evf) else None
         r = subprocess.run([os.path.join(a.verif, 'check'), p, '--tier', 'quick'], cwd=a.verif, env=dict(os.environ, XYZ_REPO=wt),
                            capture_output=True, text=True, timeout=3000)
         lines = [l for l in r.stdout.split('\n') if l.strip() and not l.startswith('KNOWN-FINDING')]
@@ -23,6 +26,7 @@ try:
             ev = json.load(open(os.path.join(a.verif, 'evidence', p + '.json')))
             fb = sorted(k for k, v in ev['coverage'].get('extraction', {}).items() if v != 'translated')
         except Exception: pass
+        if keep is not None: open(evf, 'w').write(keep)
         res[p] = {'rc': r.returncode, 'wall_s': round(time.time() - t0, 1), 'fallback_anchors': fb, 'out': '\n'.join(lines[-3:])[:500]}
         print(p, r.returncode, fb, flush=True)
 finally:
